@@ -15,8 +15,9 @@ def main():
     for name in names:
         if "/" in name:                       # a staging directory like /tmp/seed-C06-out/1
             d = Path(name)
-            m = re.search(r"seed(2?)-(C\d+)-out/(\d+)", name)
-            name = f"{m.group(2)}-{int(m.group(3)) + (2 if m.group(1) else 0)}"
+            m = re.search(r"seed(\d?)-(C\d+)-out/(\d+)", name)
+            rnd = int(m.group(1) or 1)            # /tmp/seed-, /tmp/seed2-, /tmp/seed3-: rounds 1, 2, 3
+            name = f"{m.group(2)}-{int(m.group(3)) + 2 * (rnd - 1)}"
         else:
             d = V / "seeded" / name
         try:
